@@ -19,7 +19,7 @@ func TestProp(t *testing.T)   { vkit.RunAll(t) }
 func TestReplay(t *testing.T) { vkit.RunReplay(t) }
 
 func run(c tsofix.Case) (vkit.Info, error) {
-	info, viol := tsofix.Run(c)
+	info, viol := tsofix.Run(c, "C02")
 	info.NonTrivial = tsofix.NonTrivialC02(info)
 	for _, v := range viol {
 		if v.Prop == "C02" {
@@ -39,7 +39,7 @@ func probe(t *testing.T, key string, c tsofix.Case) {
 	rep := false
 	detail := "no C02 violation on the probe history"
 	for i := 0; i < 3 && !rep; i++ {
-		_, viol := tsofix.Run(c)
+		_, viol := tsofix.Run(c, "C02")
 		for _, v := range viol {
 			if v.Prop == "C02" {
 				rep, detail = true, v.Msg
